@@ -194,3 +194,30 @@ func (h H) voteStability(rule string, vt voteTraces) {
 	}
 	h.C.Floor(rule+" (leader-known paths)", n, 1)
 }
+
+// voteRefusalJustified (C17.1b): the converse of the grant rules, a liveness
+// necessary condition: every path of the vote handler that does not grant the
+// vote has one of the protocol's reasons for refusing — a live leader is known
+// and the request carries no transfer permission; the request's term is lower
+// than ours; we already voted for someone else in this term; the candidate's
+// log is less up-to-date than ours. A handler that refuses more than that
+// (e.g. on equal terms, or on equal logs) can leave a healthy majority unable
+// to elect anyone.
+func (h H) voteRefusalJustified(rule string, vt voteTraces) {
+	succ := h.constStr("raft:success")
+	n := 0
+	for _, t := range vt.traces {
+		if t.Exit != "return" || len(t.Ret) == 0 || t.Ret[0] == succ {
+			continue
+		}
+		n++
+		e := func(a, op, b string) bool { return t.Entails(a, op, b) }
+		leaderKnown := (e(vTransfer, "!=", "true") || e(vTransfer, "==", "false")) && e(vLeader, "!=", "0") && e(vReqSrc, "!=", vLeader)
+		stale := e(vReqTerm, "<", vTerm)
+		voted := e(vReqTerm, "<=", vTerm) && e(vVoted, "!=", "0") && e(vVoted, "!=", vReqSrc)
+		behind := e(vLLT, ">", vReqLLT) || (e(vLLT, "==", vReqLLT) && e(vLLI, ">", vReqLLI))
+		h.C.Check(rule, pathKey(t), leaderKnown || stale || voted || behind, t.ExitPos,
+			fmt.Sprintf("the vote is refused (%s) on a path where none of the protocol's reasons holds [leader known=%v, stale term=%v, voted for another=%v, candidate's log behind=%v]", t.Ret[0], leaderKnown, stale, voted, behind))
+	}
+	h.C.Floor(rule+" (refusing paths)", n, 4)
+}
